@@ -59,7 +59,7 @@ CLAIMED["C20"] = ("verif-mgr", "DESIGN.md §3 C20",
     "before/after each acquisition and release of the manager's mutexes, each load/store of the active-path slot and each operation on the managed-pair index. Oracles: at every point where no actor can run, no un-cancelled caller is blocked "
     "unless a lookup for its pair is outstanding (lost wake-up) and nobody waits for a lock (deadlock); runs consisting only of concurrent first requests start exactly one worker per pair; after the last manager handle is dropped and "
     "lookups finish every worker actor terminates; while nothing was removed a waiter is not released with an error if every finished lookup delivered selectable paths; a waiter is not released by a removal requested before it arrived; "
-    "a worker found looping at one virtual instant (spin guard) must not leave a present or late-arriving caller blocked with no lookup outstanding; no panic. Evidence, not proof.",
+    "a handle holder asking after the drop is over gets an error, never a path; a worker found looping at one virtual instant (spin guard) must not leave a present or late-arriving caller blocked with no lookup outstanding; no panic. Evidence, not proof.",
     MGR_NOTE + " Pre-emption exists only at hooked points; Notify, broadcast, ArcSwap internals are atomic steps; the managed-pair index is the simulator's model of scc::HashIndex (scc itself is trusted).",
     "deterministic simulation with fault injection (baton-passing actor threads with seeded pre-emption at hooked synchronisation points, quiescence/lost-wake-up oracle, replayable choice vector, shrinking)")
 
